@@ -322,11 +322,12 @@ Expire(i, a) ==
 Restarted(i) ==   \* a new dispatcher: flushes in flight are cancelled, the groups are built again from the alerts
   /\ pend' = [pend EXCEPT ![i] = [a \in Alerts |-> Idle]]
   /\ due' = [due EXCEPT ![i] = [a \in Alerts |-> IF a \in has[i] THEN now ELSE NONE]]
-Reload(i, c, kind) ==
+\* ov: GET /api/v2/status requests overlap the reload request (they read, the state is the same)
+Reload(i, c, kind, ov) ==
   /\ life[i] = "up" /\ cnt.rl < Lim.rl
   /\ file' = [file EXCEPT ![i] = [c |-> c, kind |-> kind]]
   /\ cnt' = [cnt EXCEPT !.rl = @ + 1]
-  /\ last' = [op |-> "reload", i |-> i, c |-> c, kind |-> kind]
+  /\ last' = [op |-> "reload", i |-> i, c |-> c, kind |-> kind, ov |-> ov]
   /\ CASE kind = "good" ->
             /\ cfg' = [cfg EXCEPT ![i] = c] /\ api' = [api EXCEPT ![i] = c]
             /\ Restarted(i)
@@ -445,7 +446,7 @@ Env ==
   \/ \E i \in Inst : Start(i) \/ Stop(i) \/ Kill(i)
   \/ \E a \in Alerts : Post(Up, a) \/ \E i \in Up : Post({i}, a)
   \/ \E i \in Inst, a \in Alerts : Silence(i, a) \/ Expire(i, a)
-  \/ \E i \in Inst, c \in Cfgs, kind \in {"good", "badload", "badapply"} : Reload(i, c, kind)
+  \/ \E i \in Inst, c \in Cfgs, kind \in {"good", "badload", "badapply"} : Reload(i, c, kind, FALSE)
 Step ==
   \/ (~Urgent /\ Env)
   \/ \E i \in Inst : Ready(i) \/ Maintain(i)
